@@ -29,7 +29,7 @@ BOUNDARY_PGNS = [0, 1, 0xFF, 0x100, 0xEA00, 0xEAFF, 0xEE00, 0xEEFF, 0xEE01, 0xEF
 
 def cases(tier, seed):
     rng = random.Random(14000 + seed)
-    n = 800 if tier == 'quick' else 10000
+    n = 800 if tier == 'quick' else 30000
     out = []
     for i in range(n):
         stacks = []
